@@ -580,6 +580,22 @@ Section Binding.
     - exists vS. split; [assumption|]. right. assumption.
   Qed.
 
+  (* the value a kex-waiting caller (get_server_host_key) receives is the key under which the signature over
+     the hash of the client's whole view verified *)
+  Theorem returned_key vC p sig k :
+    wf vC -> kex_wait_result hash verify ec_ok p vC sig = Some k -> honest_signer k ->
+    exists vS, server_session vS /\
+      ((k = k_s vS /\ v_c vC = v_c vS /\ v_s vC = v_s vS /\ i_c vC = i_c vS /\ i_s vC = i_s vS) \/
+       collision hash vC vS).
+  Proof.
+    unfold kex_wait_result. intros Hw Hr Hh.
+    destruct (client_accepts hash verify ec_ok p vC sig) eqn:Ha; [|discriminate].
+    injection Hr as <-.
+    destruct (binding_prefix vC p sig Hw Ha Hh) as (vS & Hs & [(E1 & E2 & E3 & E4 & E5)|C]).
+    - exists vS. split; [assumption|]. left. repeat split; assumption.
+    - exists vS. split; [assumption|]. right. assumption.
+  Qed.
+
   Theorem accepted_range vC p sig :
     client_accepts hash verify ec_ok p vC sig = true ->
     match kf vC with
